@@ -163,12 +163,37 @@ def ref_scan(scs):
     return pairs
 
 
-def check_scan(ctx, scs, via_cli, scratch):
+def check_scan_shared(ctx, scs, objs, exp, case):
+    from tola.assembly.assembly import Assembly
+
+    a = Assembly("a", scaffolds=objs)
+    try:
+        got = a.find_overlapping_fragments()
+    except Exception as e:  # noqa: BLE001
+        ctx.violation("scan-raised", f"find_overlapping_fragments raised {type(e).__name__}: {e}", case)
+        return
+    idx = {id(s_): si for si, s_ in enumerate(objs)}
+
+    def d(si, r):
+        return (si, r[1], r[2], r[3], r[4])
+
+    got_desc = sorted(tuple(sorted(((idx.get(id(s1)), f1.name, f1.start, f1.end, f1.strand), (idx.get(id(s2)), f2.name, f2.start, f2.end, f2.strand)))) for (f1, s1), (f2, s2) in got or [])
+    exp_desc = sorted(tuple(sorted((d(p1[0], scs[p1[0]][1][p1[1]]), d(p2[0], scs[p2[0]][1][p2[1]])))) for p1, p2 in exp)
+    if got_desc != exp_desc:
+        missing = [x for x in exp_desc if x not in got_desc][:3]
+        extra = [x for x in got_desc if x not in exp_desc][:3]
+        sig = "scan-missing-pair" if missing else ("scan-extra-pair" if extra else "scan-pair-multiplicity")
+        ctx.violation(f"{sig}:shared-row-objects", f"scan reports {len(got_desc)} pairs, reference {len(exp_desc)}; missing={missing} extra={extra}", case)
+        return
+    ctx.count("scan:in-process-shared")
+
+
+def check_scan(ctx, scs, via_cli, scratch, shared=False):
     from tola.assembly.assembly import Assembly
 
     ctx.case()
     exp = ref_scan(scs)
-    case = {"kind": "scan", "scaffolds": scs, "via_cli": via_cli}
+    case = {"kind": "scan", "scaffolds": scs, "via_cli": via_cli, "shared": shared}
     if exp:
         ctx.nontrivial(scs)
         ctx.count("scan:with-overlaps")
@@ -176,6 +201,23 @@ def check_scan(ctx, scs, via_cli, scratch):
         ctx.count("scan:without-overlaps")
     if not via_cli:
         objs = build_scaffolds(scs)
+        if shared:
+            # API route only: ONE Fragment object in several row positions (the same contig placed twice by
+            # code that re-uses row objects, as append_scaffold and the remapper do)
+            first = {}
+            nshared = 0
+            for s_ in objs:
+                for ri, r in enumerate(s_.rows):
+                    if hasattr(r, "strand"):
+                        k = (r.name, r.start, r.end, r.strand)
+                        if k in first:
+                            s_.rows[ri] = first[k]
+                            nshared += 1
+                        else:
+                            first[k] = r
+            if nshared:
+                ctx.count("scan:one-object-in-several-rows")
+            return check_scan_shared(ctx, scs, objs, exp, case)
         a = Assembly("a", scaffolds=objs)
         ident = {}
         for si, s in enumerate(objs):
@@ -253,7 +295,7 @@ def run_scan(shard, ctx):
     for i in range(shard["n"]):
         rng = rng_for(shard["seed"], "c19s", shard["index"], i)
         scs = gen_assembly(rng)
-        check_scan(ctx, scs, via_cli=(i % 4 == 3), scratch=scratch)
+        check_scan(ctx, scs, via_cli=(i % 4 == 3), scratch=scratch, shared=(i % 4 == 1))
 
 
 def run(shard, ctx):
@@ -270,7 +312,7 @@ def replay(case, ctx):
     if case["kind"] == "pair":
         eval_pair(ctx, case["a"], case["b"])
     else:
-        check_scan(ctx, case["scaffolds"], case.get("via_cli", False), os.environ.get("VERIF_SHARD_SCRATCH", "."))
+        check_scan(ctx, case["scaffolds"], case.get("via_cli", False), os.environ.get("VERIF_SHARD_SCRATCH", "."), shared=case.get("shared", False))
 
 
 def plan(tier, seed):
@@ -285,6 +327,8 @@ def plan(tier, seed):
 def gates(c, tier):
     need = {
         "exhaustive:parts": 4,
+        "scan:one-object-in-several-rows": 200,
+        "scan:in-process-shared": 1000,
         "pairs:overlap": 1000,
         "pairs:abut": 500,
         "pairs:gap": 1000,
